@@ -29,23 +29,30 @@ pub fn run(tier: &str) -> i32 {
             (2, 255, 2, 600, None),
         ]
     };
-    // (theta, follow_ups, max_deviations, max_depth, hb_budget, wide pool)
-    let parts: Vec<(u32, usize, usize, usize, Option<u64>, bool)> = {
-        let mut v: Vec<_> = parts.into_iter().map(|(a, b, c, d, e)| (a, b, c, d, e, false)).collect();
+    // (theta, follow_ups, max_deviations, max_depth, hb_budget, pool: 0 standard / 1 wide / 2 tall)
+    let parts: Vec<(u32, usize, usize, usize, Option<u64>, u8)> = {
+        let mut v: Vec<_> = parts.into_iter().map(|(a, b, c, d, e)| (a, b, c, d, e, 0u8)).collect();
         if quick {
-            v.push((2, 1, 3, 60, None, true));
+            v.push((2, 1, 3, 60, None, 1));
+            v.push((2, 1, 3, 80, None, 2));
         } else {
-            v.push((2, 2, 5, 80, None, true));
-            v.push((1, 1, 5, 80, Some(2), true));
-            v.push((3, 0, 6, 80, None, true));
+            v.push((2, 2, 5, 80, None, 1));
+            v.push((1, 1, 5, 80, Some(2), 1));
+            v.push((3, 0, 6, 80, None, 1));
+            v.push((2, 2, 4, 100, None, 2));
+            v.push((1, 1, 4, 100, Some(2), 2));
         }
         v
     };
-    for (theta, p, dev, depth, budget, wide) in parts {
+    for (theta, p, dev, depth, budget, pool_kind) in parts {
         let m = SchedModel {
             net: Network::Regtest,
             theta,
-            pool: if wide { Pool::wide(Network::Regtest, p) } else { Pool::standard(Network::Regtest, p) },
+            pool: match pool_kind {
+                1 => Pool::wide(Network::Regtest, p),
+                2 => Pool::tall(Network::Regtest, p, 6),
+                _ => Pool::standard(Network::Regtest, p),
+            },
             max_deviations: dev,
             max_depth: depth,
             hb_budget: budget,
@@ -53,17 +60,19 @@ pub fn run(tier: &str) -> i32 {
             liveness: p < 100,
             upgrade_transparency: false,
             syncing_toggles: true,
+            sync_gate: false,
         };
         let e = explore(&m, &Limits::new(3, if quick { 300 } else { 6000 }));
+        let pool_desc = ["G-P1-P2-P3 + fork F on P1, P2 paginated, two blocks per reply", "G-A1-A2 and G-B1-B2-B3, B2 paginated, one block per reply", "G-T1-...-T6, T2 paginated, one block and at most three announced headers per reply (each reply announces a header no earlier reply announced)"][pool_kind as usize];
         rep.absorb(
-            &format!("SCHED theta={} follow_ups={} deviations<={} depth<={} hb_budget={:?} pool={}", theta, p, dev, depth, budget, if wide { "wide" } else { "standard" }),
+            &format!("SCHED theta={} follow_ups={} deviations<={} depth<={} hb_budget={:?} pool={}", theta, p, dev, depth, budget, ["standard", "wide", "tall"][pool_kind as usize]),
             e,
             json!({"threshold": theta, "follow_up_pages": p, "max_deviations": dev, "max_depth": depth,
                    "heartbeat_ingestion_budget": budget,
-                   "pool": if wide { "G-A1-A2 and G-B1-B2-B3, B2 paginated, one block per reply" } else { "G-P1-P2-P3 + fork F on P1, P2 paginated, two blocks per reply" }}),
+                   "pool": pool_desc}),
         );
     }
-    rep.rule = "all schedules of {start a heartbeat, deliver normal/reject/empty reply to a parked heartbeat, upgrade} with at most d deviations from the sequential schedule (a heartbeat while a request is outstanding, a reject, an empty reply, an upgrade, switching syncing off (and on again) each cost one), over a source holding a 4-block pool with one block split into 1+p pages; states merged on the complete logical state + parked requests + source cursor + deviations used; from every state a fault-free suffix must sync the pool".into();
+    rep.rule = "all schedules of {start a heartbeat, deliver normal/reject/empty reply to a parked heartbeat, upgrade} with at most d deviations from the sequential schedule (a heartbeat while a request is outstanding, a reject, an empty reply, an upgrade, switching syncing off (and on again) each cost one), over a source holding a pool of 4-6 blocks with one block split into 1+p pages (the first page carries the headers of the blocks that do not fit); what is stored after the last page equals what the source sent (block bytes and announced headers), every header announced in a processed reply is pending afterwards; states merged on the complete logical state + parked requests + source cursor + deviations used; from every state a fault-free suffix must sync the pool".into();
     rep.bounds = json!({"tier": tier});
     rep.assume("the source honours its protocol (no complete reply to a follow-up request, no partial reply announcing 0 follow-ups); set_config is not in this alphabet");
     rep.assume("an upgrade leaks outstanding heartbeats: the IC never resumes call contexts of the old instance");
@@ -77,5 +86,8 @@ pub fn run(tier: &str) -> i32 {
     rep.floor("liveness_suffixes_checked", 200);
     rep.floor("syncing_switched_off", 20);
     rep.floor("syncing_switched_off_between_pages", 2);
+    rep.floor("reassembled_responses_identical", 50);
+    rep.floor("reassembled_responses_with_announced_headers", 10);
+    rep.floor("announced_headers_accounted_for_after_processing", 50);
     rep.finish()
 }
